@@ -334,7 +334,7 @@ func (g *gen) scale() {
 	th := g.o.Thorough()
 	// sizes 2..6: many independent lines, distinct counts 10x..1000x the size
 	for c := 2; c <= 6; c++ {
-		for i := 0; i < g.o.Scale(4, 100); i++ {
+		for i := 0; i < g.o.Scale(3, 100); i++ {
 			g.scaleSize(c, 30000)
 			for _, m := range []int{10, 100, 1000} {
 				// values with repeats: most of m*c distinct values among 2*m*c Adds
@@ -359,6 +359,9 @@ func (g *gen) scale() {
 			reps := 1
 			if c <= 65 {
 				reps = g.o.Scale(2, 20)
+				if c > 17 && !th {
+					reps = 1
+				}
 			}
 			for i := 0; i < reps; i++ {
 				g.scaleSize(c, budget)
